@@ -314,8 +314,10 @@ def _s3(prog, run):
     if "_iterate_fields" not in it or any(w in it for w in ("sorted", "reversed", "set(", "[::-1]")):
         run.report(r, "%s:%s:iteration" % (BEXE, m.qualname), m.where(lp), "fields are not iterated in collection order: `%s`" % it)
     key = lp.target.elts[0].id if isinstance(lp.target, ast.Tuple) else None
+    from ..canon import Canon
+    mcn = Canon(m.node)
     stores = [n for n in ast.walk(lp) if isinstance(n, ast.Assign) and isinstance(n.targets[0], ast.Subscript) and ast.unparse(n.targets[0].slice) == key
-              and isinstance(n.value, ast.Call) and ast.unparse(n.value.func) == "self.resolve_field"]
+              and isinstance(mcn.expr(n.value), ast.Call) and mcn.func_text(mcn.expr(n.value)) == "self.resolve_field"]
     r.instance("store `%s`" % (norm_stmt(stores[0]) if stores else None))
     if len(stores) != 1:
         run.report(r, "%s:%s:store" % (BEXE, m.qualname), m.where(lp), "the loop does not store resolve_field(...) under the response key")
